@@ -106,7 +106,8 @@ def _run_whole(D):
     N = 2 + D.dec('cfg', 'wN', 6)
     G = 1 + D.dec('cfg', 'wG', 3)
     sut_seed = D.dec('sut', 'seed', 1 << 30)
-    ctx.sample = {'family': 'run', 'algorithm': kind, 'N': N, 'G': G, 'workers': workers, 'store': 'sqlite' if use_db else 'dummy',
+    wev = (None, 'gradient', 'worst')[D.weighted('cfg', 'wevaluator', (3, 1, 1))] if kind in ('nsga2', 'epsmoea') else None
+    ctx.sample = {'family': 'run', 'evaluator': wev or 'simple', 'algorithm': kind, 'N': N, 'G': G, 'workers': workers, 'store': 'sqlite' if use_db else 'dummy',
                   'policy': sim.policy, 'stall_p': sim.stall_p, 'timed': sim.timed}
     site = 'Evaluator.evaluate_parallel'
     dbs = []
@@ -114,7 +115,7 @@ def _run_whole(D):
     def one(nworkers, tag, hook):
         Individual.counter = 0
         seams.RNG.begin(D, sut_seed, 0.0)
-        w = W.World(D, sim, fail='none', precision=0, name='c07w')
+        w = W.World(D, sim, fail='none', precision=0, with_tol=True, name='c07w')
         db = None
         if use_db:
             db = W.fresh_db('c07w' + tag)
@@ -129,14 +130,14 @@ def _run_whole(D):
                 alg = SweepAlgorithm(w.problem, generator=gen)
             alg.options['max_processes'] = nworkers
         else:
-            alg = W.make_algorithm(kind, w, N, G, workers=nworkers)
+            alg = W.make_algorithm(kind, w, N, G, workers=nworkers, evaluator=wev)
         if hook:
             real = alg.evaluator.evaluate
 
             def spy(individuals):
                 batch = list(individuals)
                 r = real(individuals)
-                if db and not ctx.violations:
+                if db and not ctx.violations and wev is None:
                     _rows_at_batch_end(ctx, db, batch)
                 return r
             alg.evaluator.evaluate = spy
@@ -191,7 +192,7 @@ def _run_whole(D):
                         ctx.violation('row_ne_final', 'SqliteDataStore.sync_individual', 'row id %d: parallel %r, serial %r'
                                       % (i, _row_of(rows[i]), _row_of(rowst[i])))
                         break
-        ctx.sig('whole', kind, N, G, workers, use_db, len(lp), tuple(sim.sigs[:3]),
+        ctx.sig('whole', kind, wev, N, G, workers, use_db, len(lp), tuple(sim.sigs[:3]),
                 tuple(sorted((k, v) for k, v in sim.stats.items() if k in ('stall', 'busy_timeout'))))
     finally:
         for w, db in dbs:
